@@ -4,6 +4,8 @@
 package verifspec
 
 import (
+	"crypto/hmac"
+	"hash"
 	"crypto/aes"
 	"crypto/cipher"
 )
@@ -182,4 +184,26 @@ func KWPWrap(kek, p []byte) []byte {
 		}
 	}
 	return append(append([]byte{}, a...), r...)
+}
+
+// HKDF is RFC 5869 (extract-then-expand) over crypto/hmac:
+// PRK = HMAC(salt, ikm); T(i) = HMAC(PRK, T(i-1) || info || i); OKM = first l bytes of T(1) || T(2) || ...
+func HKDF(h func() hash.Hash, ikm, salt, info []byte, l int) []byte {
+	size := h().Size()
+	if len(salt) == 0 {
+		salt = make([]byte, size)
+	}
+	ext := hmac.New(h, salt)
+	ext.Write(ikm)
+	prk := ext.Sum(nil)
+	var okm, t []byte
+	for i := 1; len(okm) < l; i++ {
+		m := hmac.New(h, prk)
+		m.Write(t)
+		m.Write(info)
+		m.Write([]byte{byte(i)})
+		t = m.Sum(nil)
+		okm = append(okm, t...)
+	}
+	return okm[:l]
 }
